@@ -9,6 +9,7 @@ import (
 	"os"
 	"path/filepath"
 
+	"github.com/JunNishimura/Goit/internal/fsutil"
 	"github.com/JunNishimura/Goit/internal/object"
 	"github.com/JunNishimura/Goit/internal/store"
 	"github.com/spf13/cobra"
@@ -78,7 +79,7 @@ func restoreWorkingDirectory(rootGoitPath, path string, index *store.Index) erro
 	}
 
 	// restore file
-	f, err := os.Create(absPath)
+	f, err := fsutil.CreateWorkingFile(absPath)
 	if err != nil {
 		return fmt.Errorf("%w: %s", ErrIOHandling, absPath)
 	}
